@@ -28,6 +28,9 @@ StrNum == {PStr(<<48, 49, 48>>), PStr(<<48, 56>>), PStr(<<48, 120, 49, 48>>), PS
            PStr(<<48, 98, 49>>), PStr(<<32, 55>>), PStr(<<48, 111, 55>>)}
 C11_Coerce == {PBin(op, n, x) : op \in ArithOps \cup CmpOps, n \in {PNum(7), PNum(0), PNum(8)}, x \in StrNum}
                 \cup {PBin(op, x, n) : op \in ArithOps \cup CmpOps, n \in {PNum(7), PNum(2)}, x \in StrNum}
+                \* a string counts as true exactly when it is not empty: blanks are characters
+                \cup {PBin(op, PBool(b), x) : op \in BoolOps \cup CmpOps, b \in BOOLEAN,
+                                               x \in {PStr(<<32>>), PStr(<<32, 9>>), PStr(<<10>>), PStr(<<32, 48>>), PStr(<<102, 97, 108, 115, 101>>)}}
 
 (* precedence and associativity: every pair of operators in both shapes     *)
 Triples == { <<PNum(7), PNum(2), PNum(3)>>, <<PStr(S7), PNum(2), PNum(3)>>, <<PStr(S7), PStr(<<50>>), PStr(<<51>>)>>,
